@@ -529,6 +529,25 @@ def c19_aligned_unique():
     return None if shapes == [(30, 2), (30, 2)] else f"AlignedUMAP(unique=True), 30-row dataset with 2 repeated rows: embeddings of shapes {shapes}"
 
 
+def c13_cosine_empty_rows():
+    """several all-zero rows under cosine: umap's cosine (dense and sparse kernels) gives two zero vectors the distance 0, scikit-learn's
+    sparse cosine_distances — used for CSR input below 4096 samples — gives 1"""
+    import umap
+    r = _rng(0)
+    X = r.normal(size=(40, 6)).astype(np.float32)
+    X[np.abs(X) < 0.7] = 0
+    X[3] = 0
+    X[11] = 0
+    X[25] = 0
+    kw = dict(metric="cosine", n_neighbors=5, random_state=1, n_epochs=0, init="random")
+    with warnings.catch_warnings():
+        warnings.simplefilter("ignore")
+        a = umap.UMAP(**kw).fit(X).graph_
+        b = umap.UMAP(**kw).fit(scipy.sparse.csr_matrix(X)).graph_
+    d = float(abs(a - b).max())
+    return None if d < 1e-5 else f"cosine with three all-zero rows: graph of fit(CSR) differs from graph of fit(dense) by {d}"
+
+
 def c17_short_run():
     """n_epochs <= 10 on a graph with edges between max/700 and max/500"""
     import umap
@@ -677,6 +696,7 @@ WITNESSES = {
     "C20:force-flag-sticks-to-estimator": c20_sticky_force_flag,
     "C19:relation-tensor-narrower-than-datasets": c19_tensor_width,
     "C19:aligned-unique-wrong-shape": c19_aligned_unique,
+    "C13:cosine-empty-rows-sklearn-convention": c13_cosine_empty_rows,
     "C15:symmetric-graph-start-vector": c15_symmetric_path,
     "C10:sparse-training-data-not-recognised": c10_csr_copy,
     "C10:list-n_epochs-transform-typeerror": c10_list_epochs,
